@@ -59,7 +59,10 @@ func (c *expCache) load() {
 	c.m = map[string]string{}
 	out, _ := goList("-deps", "-f", "{{.ImportPath}}\t{{.Export}}", "fmt", "math", "strings", "strconv", "errors", "os", "sort", "time",
 		"reflect", "runtime", "io", "bytes", "math/big", "github.com/qiniu/x/stringutil", "github.com/qiniu/x/stringslice", "github.com/qiniu/x/errors",
-		"github.com/qiniu/x/xgo/ng", "github.com/qiniu/x/xgo", "github.com/qiniu/x/osx")
+		"github.com/qiniu/x/xgo/ng", "github.com/qiniu/x/xgo", "github.com/qiniu/x/osx",
+		"encoding/json", "regexp", "bufio", "github.com/goplus/lib/c", "github.com/goplus/lib/py", "github.com/goplus/lib/py/math", "github.com/goplus/lib/py/numpy",
+		"github.com/goplus/lib/py/std", "github.com/goplus/xgo/ast", "github.com/goplus/xgo/cl/internal/huh", "github.com/goplus/xgo/cl/internal/unit",
+		"github.com/goplus/xgo/parser", "github.com/goplus/xgo/scanner", "github.com/goplus/xgo/token", "github.com/goplus/xgo/tpl/...")
 	for _, l := range strings.Split(string(out), "\n") {
 		if f := strings.SplitN(l, "\t", 2); len(f) == 2 && f[1] != "" {
 			c.m[f[0]] = f[1]
@@ -75,6 +78,9 @@ func (c *expCache) Find(dir, pkgPath string) (io.ReadCloser, error) {
 	c.mu.Unlock()
 	if !ok {
 		nFallback++
+		if os.Getenv("C12_DEBUG") != "" {
+			fmt.Fprintln(os.Stderr, "FALLBACK", pkgPath)
+		}
 		out, err := goList("-f", "{{.Export}}", pkgPath)
 		if err != nil {
 			return nil, fmt.Errorf("go list -export %s: %v", pkgPath, err)
@@ -264,6 +270,15 @@ func identContexts(files []*ast.File) map[*ast.Ident]string {
 					}
 					if v.Value != nil {
 						res[v.Value] = "forphrase-var"
+					}
+				}
+			case *ast.ComprehensionExpr:
+				for _, fp := range v.Fors {
+					if fp.Key != nil {
+						res[fp.Key] = "forphrase-var"
+					}
+					if fp.Value != nil {
+						res[fp.Value] = "forphrase-var"
 					}
 				}
 			case *ast.LambdaExpr:
